@@ -94,7 +94,7 @@ Proof.
   destruct (a_freed y); [solve [inj_tac x]|].
   destruct (minrc_drop (a_rc y)) as [[v z]|]; [|solve [inj_tac x]].
   destruct z; [|solve [inj_tac x]].
-  destruct (state_drops a (a_state y) (emit (upd_actor s a (mkActor SZombie (a_strong y) v None (a_logid y) true)) (EModel M_FREE_ACTOR a))) as [dl s2] eqn:SD.
+  destruct (state_drops a (a_state y) _) as [dl s2] eqn:SD.
   intros Q; injection Q as Q1 Q2; subst pre s'.
   destruct (state_drops_c x _ _ _ _ _ SD) as [-> CD].
   rewrite cmops_app, CD, W_emit, (W_upd_zombie x s a y _ _ _ A). unfold cactor.
